@@ -217,7 +217,24 @@ impl Gen {
     }
     pub fn select(&mut self, value_col: &str, has_host: bool) -> (String, String) {
         // (select list, tail)
-        match sim::w(10) {
+        match sim::w(13) {
+            10 | 11 => {
+                // the sequence of timestamp values is determined even when rows tie
+                self.features.push("order-by-timestamp");
+                let dir = if sim::w_bool(50) { " DESC" } else { "" };
+                let lim = match sim::w(3) {
+                    0 => String::new(),
+                    1 => format!(" LIMIT {}", sim::w_range(1, 5)),
+                    _ => format!(" LIMIT {} OFFSET {}", sim::w_range(1, 4), sim::w_range(1, 3)),
+                };
+                ("timestamp".into(), format!(" ORDER BY timestamp{dir}{lim}"))
+            }
+            12 => {
+                // "latest rows": ids are unique, so (timestamp, id) is a total order
+                self.features.push("latest-rows");
+                let lim = if sim::w_bool(70) { format!(" LIMIT {}", sim::w_range(1, 5)) } else { format!(" LIMIT {} OFFSET {}", sim::w_range(1, 3), sim::w_range(1, 2)) };
+                (["id, timestamp", "*"][sim::w(2) as usize].into(), format!(" ORDER BY timestamp DESC, id{}{lim}", if sim::w_bool(50) { " DESC" } else { "" }))
+            }
             7 => {
                 self.features.push("distinct");
                 ("DISTINCT metric_name".into(), String::new())
@@ -262,6 +279,11 @@ pub async fn reference(sql: &str, all_rows: &RecordBatch) -> Result<Vec<RecordBa
     ctx.register_table("metrics", Arc::new(t)).map_err(|e| e.to_string())?;
     let df = ctx.sql(sql).await.map_err(|e| e.to_string())?;
     df.collect().await.map_err(|e| e.to_string())
+}
+
+/// The rows in the order they were returned (for statements whose ORDER BY determines the sequence).
+pub fn result_sequence(bs: &[RecordBatch]) -> Vec<String> {
+    bs.iter().flat_map(row_strings).collect()
 }
 
 pub fn result_multiset(bs: &[RecordBatch]) -> BTreeMap<String, u32> {
